@@ -103,6 +103,8 @@ def case_term(c):
         return "(let r := check_float %s %s %s %s %s %s %s in fst r + 16 * snd r)" % (
             d, cc, zl(c.get("dv", [])), m, zl(vals), real, zl(expect))
     if k == "string":
+        if c.get("shape") == "huge-v1":
+            return None     # oracle only: one very large version-1 block
         m = SMODE[mode] if mode != -1 else "SRaw"
         ss = "[" + ";".join(bl(s) for s in c.get("strs", [])) + "]"
         t = "(check_string %s %s %s %s %s)" % (d, cc, m, ss, real)
@@ -528,6 +530,29 @@ def gen_consts(ck, binp):
     return True
 
 
+def scan_obligation(ck, binp):
+    """the static obligation behind the unmodelled tag-1 float format: no code of this version writes it"""
+    rc, out = ck.run([binp, "scan", ck.repo], timeout=120)
+    obj = None
+    for l in out.splitlines():
+        if l.startswith('{"scan"'):
+            try:
+                obj = json.loads(l)["scan"]
+            except (ValueError, KeyError):
+                obj = None
+    if rc != 0 or obj is None or not isinstance(obj.get("writes"), list):
+        ck.broken.append("harness `c07 scan` failed: " + out[-300:])
+        return
+    ck.cov["float_tag1_scan"] = obj
+    ck.cov["obligations"] += 1
+    if obj["writes"] or obj.get("decl", 0) < 1 or obj.get("files", 0) < 2:
+        ck.broken.append("obligation C07: float tag 1 (deprecated gorilla format, decoder not modelled) is written nowhere - "
+                         "no longer holds: " + (", ".join(obj["writes"]) or "tag constant not found"))
+        ck.nofail_detail = {"kind": "static-obligation", "scan": obj}
+    else:
+        ck.cov["discharged"] += 1
+
+
 def run_harness(ck, binp, n, extra, seed=None):
     env = {"VERIF_SEED": str(seed)} if seed is not None else None
     rc, out = ck.run([binp, str(n)] + extra, timeout=1800, env=env)
@@ -739,6 +764,7 @@ def main(ck):
     ok = ck.coq_build(["C07/Props.vo", "C07/Refuted.vo", "C07/Corr.vo"])
     if ok:
         ck.coq_props(["C07/Props.v", "C07/Refuted.v"])
+    scan_obligation(ck, binp)
     n = 800 if ck.tier == "quick" else 16000
     extra = [os.path.join(ck.verif, "corpus", PID)]
     if getattr(ck, "replay", None):
